@@ -261,6 +261,106 @@ fn sweep(len: usize, alpha: &[Req], base: &[String], sh: &util::Shard) -> Report
     rep
 }
 
+// ------------------------------------------------------------------ Session level (import cache)
+
+const LIB_FILES: &[(&str, &str)] = &[
+    ("ok.libsonnet", "{ v: std.foldl(function(a, i) a + i, [1, 2, 3], 0) }"),
+    ("fail.libsonnet", "error \"libfail\""),
+    ("assert.libsonnet", "{ assert self.a > 0 : \"libneg\", a: -1, b: 2 }"),
+    ("inherit.libsonnet", "{ assert self.a > 0 : \"libneg2\" } + { a: -1, b: 2 }"),
+    ("lazy.libsonnet", "{ x: error \"lazyx\", y: (import \"ok.libsonnet\").v }"),
+    ("cyc_a.libsonnet", "{ p: 1, q: (import \"cyc_b.libsonnet\").r }"),
+    ("cyc_b.libsonnet", "{ r: (import \"cyc_a.libsonnet\").p }"),
+    ("syntax.libsonnet", "{ a: "),
+    ("deep.libsonnet", "local f(n) = if n == 0 then 0 else 1 + f(n - 1); { d: f(40) }"),
+];
+
+const SESSION_REQS: &[&str] = &[
+    "(import \"ok.libsonnet\").v",
+    "import \"fail.libsonnet\"",
+    "(import \"assert.libsonnet\").b",
+    "(import \"inherit.libsonnet\").b",
+    "(import \"lazy.libsonnet\").y",
+    "(import \"lazy.libsonnet\").x",
+    "(import \"cyc_a.libsonnet\").q",
+    "import \"syntax.libsonnet\"",
+    "import \"missing.libsonnet\"",
+    "std.length(importstr \"ok.libsonnet\")",
+    "(import \"deep.libsonnet\").d",
+    // (no request changes the frame limit here: a value memoised under a generous limit is
+    // legitimately reused under a smaller one — call-by-need, not history dependence)
+    "[(import \"./ok.libsonnet\").v, (import \"assert.libsonnet\").a]",
+];
+
+fn session_history(dir: &str, reqs: &[usize]) -> Vec<String> {
+    use rsjsonnet_front::Session;
+    let arena = Arena::new();
+    let mut s = Session::new(&arena);
+    s.add_search_path(std::path::PathBuf::from(dir));
+    let mut out = Vec::new();
+    for &r in reqs {
+        let mut src = SESSION_REQS[r];
+        let small = src.starts_with("@small-stack ");
+        if small {
+            src = &src["@small-stack ".len()..];
+            s.program_mut().set_max_stack(20);
+        }
+        rsjsonnet_front::verif::start_capture();
+        let res = (|| {
+            let t = s.load_virt_file("<request>", src.as_bytes().to_vec())?;
+            let v = s.eval_value(&t)?;
+            s.manifest_json(&v, false)
+        })();
+        let captured = rsjsonnet_front::verif::take_capture();
+        if small {
+            s.program_mut().set_max_stack(500);
+        }
+        let first_error: String = captured.windows(3).find(|w| w[0].1 == "ErrorLabel" && w[0].0 == "error").map(|w| w[2].0.clone()).unwrap_or_default();
+        out.push(match res {
+            Some(j) => format!("V {j}"),
+            None => format!("E {first_error}"),
+        });
+    }
+    out
+}
+
+fn session_sweep(total: &mut Report, maxlen: usize) {
+    let dir = crate::cli::scratch("c11s");
+    for (name, data) in LIB_FILES {
+        std::fs::write(format!("{dir}/{name}"), data).unwrap();
+    }
+    let n = SESSION_REQS.len();
+    let base: Vec<String> = (0..n).map(|r| session_history(&dir, &[r]).remove(0)).collect();
+    total.extra.insert("session_fresh_outcomes".into(), json!(base));
+    for len in 2..=maxlen {
+        util::for_each_seq(n, len, |seq| {
+            let r = util::catch(|| session_history(&dir, seq));
+            total.evaluations += 1;
+            total.states += 1;
+            total.transitions += len as u64;
+            total.traces_validated += 1;
+            let case = json!({"type":"session-history","requests": seq.iter().map(|&i| SESSION_REQS[i]).collect::<Vec<_>>()});
+            match r {
+                Err(m) => total.violation(format!("C11/session/panic/{}", util::panic_site(&m)), format!("session history {:?}: {m}", seq.iter().map(|&i| SESSION_REQS[i]).collect::<Vec<_>>()), case),
+                Ok(outs) => {
+                    total.outcome("session-history");
+                    for (pos, (o, &ri)) in outs.iter().zip(seq.iter()).enumerate() {
+                        if *o != base[ri] {
+                            total.violation(
+                                "C11/session/history-dependent",
+                                format!("in one Session, after {:?} the request {:?} answers {} but in a fresh Session {}", seq[..pos].iter().map(|&i| SESSION_REQS[i]).collect::<Vec<_>>(), SESSION_REQS[ri], util::truncate(o, 150), util::truncate(&base[ri], 150)),
+                                case.clone(),
+                            );
+                            break;
+                        }
+                    }
+                }
+            }
+        });
+    }
+    let _ = std::fs::remove_dir_all(&dir);
+}
+
 pub fn run(ctx: &Ctx) -> i32 {
     let alpha = alphabet();
     let base = baseline(&alpha);
@@ -278,6 +378,8 @@ pub fn run(ctx: &Ctx) -> i32 {
         total.extra.insert(format!("histories_len{len}"), json!(r.evaluations));
         total.merge(r);
     }
+    session_sweep(&mut total, if ctx.quick() { 3 } else { 4 });
+    total.extra.insert("session_requests".into(), json!(SESSION_REQS));
     total.extra.insert("request_alphabet".into(), json!(alpha.iter().map(|r| format!("{r:?}")).collect::<Vec<_>>()));
     total.extra.insert("fresh_state_outcomes".into(), json!(base));
     util::finish(
